@@ -213,6 +213,21 @@ def check_init_kernels(res, rng, n_cases):
         res.case(("initidx", n, k, w, X.tobytes(), G.tobytes()), nontrivial=bool((G >= 0).sum() > n), sample={"n": n, "k": k, "w": w, "G0": G[0].tolist()})
         if m != graph_tokens(h):
             res.corr_fail("init_from_graph_indices_bit_exact", case, m[:200], graph_tokens(h)[:200])
+        # property (C11 / C01): every candidate is offered as NEW with its own distance: a held candidate is one of the row's offers,
+        # carries exactly dist(i, j) and flag 1; an empty slot is (-1, inf, 0)
+        for i in range(n):
+            offered = {int(j) for j in G[i] if j >= 0}
+            for s_ in range(k):
+                j = int(h[0][i, s_])
+                ok = (j == -1 and np.isinf(h[1][i, s_]) and h[2][i, s_] == 0) if j < 0 else \
+                    (j in offered and np.float32(h[1][i, s_]) == np.float32(tab[i, j]) and h[2][i, s_] == 1)
+                if not ok:
+                    res.violation("heap:init-from-graph:pairing", "initalize_heap_from_graph_indices: row %d slot %d holds (idx %d, dist %r, flag %d); "
+                                  "offered %s with flag 1" % (i, s_, j, float(h[1][i, s_]), int(h[2][i, s_]), sorted(offered)), case)
+                    break
+            else:
+                continue
+            break
         # (2) indices and distances
         D = np.where(G >= 0, tab[np.arange(n)[:, None], np.maximum(G, 0)], np.float32(0)).astype(np.float32)
         h2 = utils.make_heap(n, k)
